@@ -1,225 +1,174 @@
-"""Translator for C17: regenerates, from the working tree's source, the safe-character set that every URL
-component is quoted with — the constants *and* which constant each call site uses.
+"""Translator for C17: regenerates the safe-character set every URL component is quoted with.
 
- * traversal.py   PATH_SEGMENT_SAFE, PATH_SAFE; `_join_path_tuple` -> quote_path_segment(x) (default `safe`)
- * url.py         QUERY_SAFE, ANCHOR_SAFE; parse_url_overrides -> url_quote(query, …), url_quote(anchor, …);
-                  _quoted_script_name -> url_quote(bscript_name, …); _join_elements (the uncached
-                  stringifying wrapper) -> _join_text_elements -> quote_path_segment(s, safe=…)
- * urldispatch.py _compile_route -> quote_path_segment(prefix|s, safe='/') for pattern literals,
-                  q(v) = quote_path_segment(v, safe=…) for placeholder values
- * encode.py      quote_plus(val, safe='') default and urlencode(…, quote_via=quote_plus); quote_via(·) is
-                  called with one argument for keys and values
- * the standard library's `urllib.parse._ALWAYS_SAFE` (read from the running interpreter)
+It used to read the quoting call sites out of the AST (url.py / traversal.py / urldispatch.py / encode.py).  That made
+behaviour-preserving refactorings (helpers extracted or renamed, locals renamed) look like a broken obligation.  It now
+*probes the running code*: in a fresh interpreter with the source tree under test first on `sys.path`, a real
+`Configurator` / `Request` is built and, for each of the 128 ASCII characters `c`, the public helpers are called with
+`'x' + c + 'y'` in each position; `c` belongs to the position's safe set iff it comes out unescaped (and is not in
+urllib's always-safe set, which is reported separately):
 
-A site whose shape is not the expected one makes `recognised` false and its set a poison set containing
-`% / ? # & =`; the `decide`d obligations of Props/C17.lean then fail.
+  elementSafe   request.route_path('r', 'x'+c+'y')                 (`*elements`)
+  scriptSafe    route_path with SCRIPT_NAME '/x'+c+'y'
+  routeLitSafe  a route whose pattern is '/x'+c+'-'                 (pattern literal; characters a pattern cannot hold
+                                                                     as literal text — add_route raises, or the text
+                                                                     becomes a placeholder — are reported as not safe)
+  routeValSafe  route '/v/{x}' with x='x'+c+'y', and the same through a '*rest' route (both must agree)
+  resNameSafe   request.resource_path(resource named 'x'+c+'y')
+  querySafe     _query='x'+c+'y' (a str query)
+  anchorSafe    _anchor='x'+c+'y'
+  plusSafe      _query=[(k, v)], _query=[(k, [v])] with k = v = 'x'+c+'y' (key, value and sequence member must agree;
+                the space is expected as '+')
+
+plus the module constants PATH_SEGMENT_SAFE / PATH_SAFE / QUERY_SAFE / ANCHOR_SAFE (attribute values minus the always-safe
+characters, e.g. the redundant `~`; when one is missing the probed set of its main site stands in) and urllib's `_ALWAYS_SAFE`.
+
+`recognised` is false — and the sets are a poison set `% / ? # & =` so that the decided obligations fail — only when
+the probe itself cannot run or cannot be read: the interpreter fails, a helper raises on a plain input, an output
+does not have the probed text where it must be, or two positions that the model quotes with one set disagree.
 """
-import ast, os
+import json, os, subprocess, sys
 
 summary = {}
 POISON = sorted(b'%/?#&=')
 
+PROBE = r'''
+import json, sys
+from urllib.parse import _ALWAYS_SAFE
+from pyramid.config import Configurator
+from pyramid.request import Request
 
-class Unknown(Exception):
-    pass
-
-
-def _consts(tree, env):
-    """module-level NAME = <str expr> assignments, evaluated over `env` (str constants, names, +)"""
-    def ev(n):
-        if isinstance(n, ast.Constant) and isinstance(n.value, str):
-            return n.value
-        if isinstance(n, ast.Name) and n.id in env:
-            return env[n.id]
-        if isinstance(n, ast.BinOp) and isinstance(n.op, ast.Add):
-            return ev(n.left) + ev(n.right)
-        raise Unknown(ast.dump(n))
-    for st in tree.body:
-        if isinstance(st, ast.Assign) and len(st.targets) == 1 and isinstance(st.targets[0], ast.Name):
-            nm = st.targets[0].id
-            if nm.isupper() and nm.endswith('SAFE'):
-                try:
-                    env[nm] = ev(st.value)
-                except Unknown:
-                    env[nm] = None
-    return ev
+problems = []
+out = {}
+ALWAYS = set(_ALWAYS_SAFE)
+CH = [chr(i) for i in range(128)]
 
 
-def _func(tree, name, cls=None):
-    for n in ast.walk(tree):
-        if isinstance(n, ast.FunctionDef) and n.name == name:
-            return n
-    return None
+def env(script=''):
+    return {'REQUEST_METHOD': 'GET', 'wsgi.url_scheme': 'http', 'SERVER_NAME': 'h', 'SERVER_PORT': '80', 'HTTP_HOST': 'h',
+            'SCRIPT_NAME': script, 'PATH_INFO': '/', 'QUERY_STRING': '', 'SERVER_PROTOCOL': 'HTTP/1.1'}
 
 
-def _calls(func, callee):
-    out = []
-    for n in ast.walk(func):
-        if isinstance(n, ast.Call) and (getattr(n.func, 'id', None) == callee or getattr(n.func, 'attr', None) == callee):
-            out.append(n)
-    return out
+config = Configurator(settings={})
+config.add_route('r', '/r')
+config.add_route('v', '/v/{x}')
+config.add_route('s', '/s/*rest')
+lit_ok = {}
+for i, c in enumerate(CH):
+    pat = '/x' + c + '-'
+    try:
+        config.add_route('l%d' % i, pat)
+        lit_ok[i] = True
+    except Exception:
+        lit_ok[i] = False            # the pattern cannot hold this character as literal text
+config.commit()
+reg = config.registry
 
 
-def _safe_arg(call, ev, pos=1, default=None):
-    """the `safe` argument of a url_quote/quote_path_segment call (2nd positional or keyword)"""
-    for k in call.keywords:
-        if k.arg == 'safe':
-            return ev(k.value)
-        if k.arg is None:
-            raise Unknown('**kw')
-    if len(call.args) > pos:
-        return ev(call.args[pos])
-    if default is None:
-        raise Unknown('no safe argument')
-    return default
+def req(script=''):
+    r = Request(env(script))
+    r.registry = reg
+    return r
 
 
-def _first_arg_name(call):
-    a = call.args[0] if call.args else None
-    return getattr(a, 'id', None)
+def kept(name, fn, lead, tail=''):
+    """characters c for which fn('x'+c+'y') is lead + 'x'+c+'y' + tail, minus urllib's always-safe set"""
+    safe = []
+    for i, c in enumerate(CH):
+        t = 'x' + c + 'y'
+        try:
+            r = fn(t, i)
+        except Exception as e:
+            problems.append('%s: helper raised %s on %r' % (name, type(e).__name__, t))
+            return None
+        if r is None:
+            continue
+        if not (r.startswith(lead + 'x') and r.endswith('y' + tail) and len(r) >= len(lead) + len(tail) + 2):
+            problems.append('%s: output %r does not carry the probed text %r' % (name, r, t))
+            return None
+        if r == lead + t + tail and i not in ALWAYS:
+            safe.append(i)
+    return safe
+
+
+class Res:
+    def __init__(self, name, parent):
+        self.__name__, self.__parent__ = name, parent
+
+
+root = Res('', None)
+
+out['elementSafe'] = kept('elementSafe', lambda t, i: req().route_path('r', t), '/r/')
+out['scriptSafe'] = kept('scriptSafe', lambda t, i: req('/' + t).route_path('r'), '/', '/r')
+out['routeValSafe'] = kept('routeValSafe', lambda t, i: req().route_path('v', x=t), '/v/')
+star1 = kept('routeValSafe(*rest as str)', lambda t, i: req().route_path('s', rest=t), '/s/')
+star2 = kept('routeValSafe(*rest as tuple)', lambda t, i: req().route_path('s', rest=(t,)), '/s/')
+for nm, st in (('*rest given as a str', star1), ('*rest given as a tuple', star2)):
+    if st is not None and out['routeValSafe'] is not None and st != out['routeValSafe']:
+        problems.append('routeValSafe: a {placeholder} and %s are quoted differently (%r vs %r)' % (nm, bytes(out['routeValSafe']), bytes(st)))
+out['resNameSafe'] = kept('resNameSafe', lambda t, i: req().resource_path(Res(t, root)), '/', '/')
+out['querySafe'] = kept('querySafe', lambda t, i: req().route_path('r', _query=t), '/r?')
+out['anchorSafe'] = kept('anchorSafe', lambda t, i: req().route_path('r', _anchor=t), '/r#')
+
+
+def lit(t, i):
+    if not lit_ok[i]:
+        return None
+    c = CH[i]
+    try:
+        r = req().route_path('l%d' % i)
+    except KeyError:
+        return None                  # the character turned the text into a placeholder: not literal text
+    # the literal is '/x' + c + '-': report it in the shape kept() expects
+    if r.startswith('/x') and r.endswith('-'):
+        return '/' + 'x' + r[2:-1] + 'y'
+    return r
+
+
+out['routeLitSafe'] = kept('routeLitSafe', lit, '/')
+
+# urlencode: key, value, member of a sequence value; the space must come out as '+'
+k = kept('plusSafe(key)', lambda t, i: req().route_path('r', _query=[(t, 'v')]), '/r?', '=v')
+v = kept('plusSafe(value)', lambda t, i: req().route_path('r', _query=[('k', t)]), '/r?k=')
+m = kept('plusSafe(member)', lambda t, i: req().route_path('r', _query={'k': [t]}), '/r?k=')
+out['plusSafe'] = k
+if k is not None and (v != k or m != k):
+    problems.append('plusSafe: key / value / sequence member are quoted differently (%r / %r / %r)' % (k, v, m))
+try:
+    if req().route_path('r', _query=[('a b', 'c d')]) != '/r?a+b=c+d':
+        problems.append("plusSafe: a space in a query pair is not encoded as '+'")
+except Exception as e:
+    problems.append('plusSafe: helper raised %s' % type(e).__name__)
+
+consts = {}
+import pyramid.traversal as T, pyramid.url as U
+for mod, nm in ((T, 'PATH_SEGMENT_SAFE'), (T, 'PATH_SAFE'), (U, 'QUERY_SAFE'), (U, 'ANCHOR_SAFE')):
+    val = getattr(mod, nm, None)
+    consts[nm] = sorted(set(val.encode('ascii', 'ignore'))) if isinstance(val, str) else None
+out['consts'] = consts
+out['alwaysSafe'] = sorted(ALWAYS)
+out['problems'] = problems
+sys.stdout.write('C17PROBE ' + json.dumps(out))
+'''
 
 
 def facts(src_root):
-    p = lambda *a: os.path.join(src_root, 'pyramid', *a)
-    env = {}
-    trees = {}
-    for f in ('traversal.py', 'url.py', 'urldispatch.py', 'encode.py'):
-        trees[f] = ast.parse(open(p(f)).read())
-    ev_t = _consts(trees['traversal.py'], env)
-    ev = _consts(trees['url.py'], env)          # url.py imports PATH_SAFE / PATH_SEGMENT_SAFE from traversal
-    out, problems = {}, []
+    env = dict(os.environ)
+    env['PYTHONPATH'] = src_root + os.pathsep + env.get('PYTHONPATH', '')
+    env['PYTHONWARNINGS'] = 'ignore'
+    try:
+        p = subprocess.run([sys.executable, '-c', PROBE], env=env, stdout=subprocess.PIPE, stderr=subprocess.PIPE, timeout=120)
+        line = [l for l in p.stdout.decode(errors='replace').splitlines() if l.startswith('C17PROBE ')]
+        if p.returncode != 0 or not line:
+            return None, ['the probe could not run (exit %s): %s' % (p.returncode, p.stderr.decode(errors='replace')[-400:].replace('\n', ' | '))]
+        out = json.loads(line[-1][len('C17PROBE '):])
+    except Exception as e:  # noqa
+        return None, ['the probe could not run: %s: %s' % (type(e).__name__, e)]
+    return out, list(out.get('problems', []))
 
-    def site(name, thunk):
-        try:
-            v = thunk()
-            if v is None or any(ord(c) > 127 for c in v):
-                raise Unknown('non-ASCII or unresolved constant')
-            out[name] = sorted(set(v.encode('ascii')))
-        except Exception as e:  # noqa
-            problems.append('%s: %s' % (name, e))
-            out[name] = POISON
 
-    # constants themselves
-    for c in ('PATH_SEGMENT_SAFE', 'PATH_SAFE', 'QUERY_SAFE', 'ANCHOR_SAFE'):
-        site('const_' + c, lambda c=c: env.get(c))
-
-    # url.py call sites
-    def one(fn, callee, argname):
-        f = _func(trees['url.py'], fn)
-        if f is None:
-            raise Unknown('no function ' + fn)
-        cs = [c for c in _calls(f, callee) if _first_arg_name(c) == argname]
-        if len(cs) != 1:
-            raise Unknown('%d calls of %s(%s, …) in %s' % (len(cs), callee, argname, fn))
-        return cs[0]
-    site('querySafe', lambda: _safe_arg(one('parse_url_overrides', 'url_quote', 'query'), ev))
-    site('anchorSafe', lambda: _safe_arg(one('parse_url_overrides', 'url_quote', 'anchor'), ev))
-    site('scriptSafe', lambda: _safe_arg(one('_quoted_script_name', 'url_quote', 'bscript_name'), ev))
-
-    def element_site():
-        # `_join_elements(elements)` must be the *uncached* wrapper that turns every non-str/bytes element into
-        # its text and hands the tuple to the cached `_join_text_elements`, whose body holds the quoting call;
-        # any other shape (e.g. the cache back on the raw element tuple, where True, 1 and 1.0 share an entry)
-        # is not recognised
-        w = _func(trees['url.py'], '_join_elements')
-        if w is None:
-            raise Unknown('no function _join_elements')
-        if w.decorator_list:
-            raise Unknown('_join_elements is decorated (a cache keyed on the raw elements?)')
-        body = [st for st in w.body if not (isinstance(st, ast.Expr) and isinstance(st.value, ast.Constant))]
-        want = 'return _join_text_elements(tuple([s if s.__class__ in (str, bytes) else str(s) for s in elements]))'
-        if [a.arg for a in w.args.args] != ['elements'] or len(body) != 1 or ast.unparse(body[0]) != want:
-            raise Unknown('_join_elements is not the stringifying wrapper')
-        t = _func(trees['url.py'], '_join_text_elements')
-        if t is None or [a.arg for a in t.args.args] != ['elements']:
-            raise Unknown('no function _join_text_elements(elements)')
-        tb = [st for st in t.body if not (isinstance(st, ast.Expr) and isinstance(st.value, ast.Constant))]
-        if len(tb) != 1 or not isinstance(tb[0], ast.Return):
-            raise Unknown('_join_text_elements body')
-        src = ast.unparse(tb[0])
-        if not (src.startswith("return '/'.join([quote_path_segment(s, safe=") and src.endswith(') for s in elements])')):
-            raise Unknown('_join_text_elements body')
-        return _safe_arg(one('_join_text_elements', 'quote_path_segment', 's'), ev)
-    site('elementSafe', element_site)
-
-    # quote_path_segment's own default (used by _join_path_tuple for resource names)
-    def qps_default():
-        f = _func(trees['traversal.py'], 'quote_path_segment')
-        if f is None or [a.arg for a in f.args.args] != ['segment', 'safe'] or len(f.args.defaults) != 1:
-            raise Unknown('quote_path_segment signature')
-        return ev_t(f.args.defaults[0])
-
-    def resname():
-        f = _func(trees['traversal.py'], '_join_path_tuple')
-        cs = _calls(f, 'quote_path_segment') if f else []
-        if len(cs) != 1:
-            raise Unknown('_join_path_tuple')
-        return _safe_arg(cs[0], ev_t, default=qps_default())
-    site('resNameSafe', resname)
-
-    # urldispatch._compile_route
-    def route_lit():
-        f = _func(trees['urldispatch.py'], '_compile_route')
-        cs = [c for c in _calls(f, 'quote_path_segment') if _first_arg_name(c) in ('prefix', 's')]
-        if len(cs) != 2:
-            raise Unknown('expected 2 literal-quoting calls, found %d' % len(cs))
-        vals = {_safe_arg(c, ev) for c in cs}
-        if len(vals) != 1:
-            raise Unknown('literal sites disagree')
-        return vals.pop()
-
-    def route_val():
-        f = _func(trees['urldispatch.py'], '_compile_route')
-        q = [n for n in ast.walk(f) if isinstance(n, ast.FunctionDef) and n.name == 'q']
-        if len(q) != 1:
-            raise Unknown('no q()')
-        cs = _calls(q[0], 'quote_path_segment')
-        if len(cs) != 1 or _first_arg_name(cs[0]) != 'v':
-            raise Unknown('q() body')
-        env2 = dict(env)
-        return _safe_arg(cs[0], ev)
-    site('routeLitSafe', route_lit)
-    site('routeValSafe', route_val)
-
-    # encode.py
-    def plus():
-        t = trees['encode.py']
-        qp = _func(t, 'quote_plus')
-        ue = _func(t, 'urlencode')
-        if qp is None or ue is None:
-            raise Unknown('encode.py functions')
-        if [a.arg for a in qp.args.args] != ['val', 'safe'] or len(qp.args.defaults) != 1:
-            raise Unknown('quote_plus signature')
-        d = qp.args.defaults[0]
-        if not (isinstance(d, ast.Constant) and isinstance(d.value, str)):
-            raise Unknown('quote_plus default')
-        names = [a.arg for a in ue.args.args]
-        if 'quote_via' not in names:
-            raise Unknown('urlencode signature')
-        dv = ue.args.defaults[len(ue.args.defaults) - (len(names) - names.index('quote_via'))]
-        if getattr(dv, 'id', None) != 'quote_plus':
-            raise Unknown('urlencode quote_via default')
-        calls = _calls(ue, 'quote_via')
-        if len(calls) != 3 or any(len(c.args) != 1 or c.keywords for c in calls):
-            raise Unknown('quote_via call shape')
-        inner = _calls(qp, '_quote_plus')
-        if len(inner) != 1 or _safe_arg(inner[0], lambda n: 'S' if getattr(n, 'id', None) == 'safe' else (_ for _ in ()).throw(Unknown('safe arg'))) != 'S':
-            raise Unknown('quote_plus body')
-        return d.value
-    site('plusSafe', plus)
-
-    # urlencode is called by parse_url_overrides without a quote_via override
-    def ue_call():
-        f = _func(trees['url.py'], 'parse_url_overrides')
-        cs = _calls(f, 'urlencode')
-        if len(cs) != 1 or any(k.arg == 'quote_via' or k.arg is None for k in cs[0].keywords) or len(cs[0].args) > 2:
-            raise Unknown('urlencode call in parse_url_overrides')
-        return ''
-    site('_urlencode_call', ue_call)
-
-    import urllib.parse as up
-    out['alwaysSafe'] = sorted(up._ALWAYS_SAFE)
-    return out, problems
+SITES = ('elementSafe', 'scriptSafe', 'routeLitSafe', 'routeValSafe', 'resNameSafe', 'querySafe', 'anchorSafe', 'plusSafe')
+CONST_OF = {'constPathSegmentSafe': ('PATH_SEGMENT_SAFE', 'elementSafe'), 'constPathSafe': ('PATH_SAFE', 'scriptSafe'),
+            'constQuerySafe': ('QUERY_SAFE', 'querySafe'), 'constAnchorSafe': ('ANCHOR_SAFE', 'anchorSafe')}
 
 
 def lean_list(bs):
@@ -228,39 +177,58 @@ def lean_list(bs):
 
 def generate(src_root):
     out, problems = facts(src_root)
+    sets = {}
+    for k in SITES:
+        v = None if out is None else out.get(k)
+        if v is None:
+            if out is not None and not any(pr.startswith(k) for pr in problems):
+                problems.append('%s: no probe result' % k)
+            v = POISON
+        sets[k] = sorted(v)
+    if problems:
+        sets = {k: (sets[k] if (out is not None and out.get(k) is not None and not any(pr.startswith(k) for pr in problems)) else POISON) for k in SITES}
+    always = sorted((out or {}).get('alwaysSafe') or [])
+    if not always:
+        import urllib.parse as up
+        always = sorted(up._ALWAYS_SAFE)
+    consts = {}
+    for lean_name, (py_name, site) in CONST_OF.items():
+        cv = ((out or {}).get('consts') or {}).get(py_name)
+        consts[lean_name] = sorted(set(cv) - set(always)) if cv is not None else sets[site]
     summary.clear()
-    summary.update({'problems': problems, 'sets': {k: bytes(v).decode('ascii') for k, v in out.items()}})
-    L = ['/- GENERATED by extract/c17.py from src/pyramid/{url,traversal,urldispatch,encode}.py — do not edit. -/',
+    summary.update({'method': 'behaviour probe (subprocess, 128 ASCII characters per position)', 'problems': problems,
+                    'sets': {k: bytes(v).decode('ascii', 'replace') for k, v in sets.items()},
+                    'constants': {k: bytes(v).decode('ascii', 'replace') for k, v in consts.items()}})
+    L = ['/- GENERATED by extract/c17.py by probing the running URL helpers of the source tree under test — do not edit. -/',
          'namespace Pyr.Url.Gen', '',
-         '/-- false when some quoting call site did not have the expected shape (%s) -/' % ('; '.join(problems).replace('-/', '- /') or 'all recognised'),
+         '/-- false when the probe could not run or could not be read (%s) -/' % ('; '.join(problems).replace('-/', '- /').replace('\n', ' ')[:600] or 'probe ran'),
          'def recognised : Bool := %s' % ('true' if not problems else 'false'), '']
     doc = {
-        'elementSafe': '`_join_elements` → `_join_text_elements`: quote_path_segment(s, safe=…)',
-        'scriptSafe': '`_quoted_script_name`: url_quote(bscript_name, …)',
-        'routeLitSafe': '`_compile_route`: quote_path_segment(prefix|s, safe=…) for pattern literals',
-        'routeValSafe': '`_compile_route`: q(v) = quote_path_segment(v, safe=…) for placeholder values',
-        'resNameSafe': '`_join_path_tuple`: quote_path_segment(x) (its default `safe`)',
-        'querySafe': '`parse_url_overrides`: url_quote(query, …) for a `str` query',
-        'anchorSafe': '`parse_url_overrides`: url_quote(anchor, …)',
-        'plusSafe': '`encode.quote_plus(val, safe=…)` default, used by `urlencode` for keys and values',
-        'alwaysSafe': "the interpreter's urllib.parse._ALWAYS_SAFE",
+        'elementSafe': 'characters left unescaped in `*elements` (route_path(name, elem))',
+        'scriptSafe': 'characters left unescaped in SCRIPT_NAME',
+        'routeLitSafe': 'characters left unescaped in the literal text of a route pattern',
+        'routeValSafe': 'characters left unescaped in a placeholder / `*star` value',
+        'resNameSafe': 'characters left unescaped in a resource `__name__` (resource_path)',
+        'querySafe': 'characters left unescaped in a `str` `_query`',
+        'anchorSafe': 'characters left unescaped in `_anchor`',
+        'plusSafe': 'characters left unescaped in a key / value / sequence member of a mapping `_query` (beyond the always-safe ones; space is `+`)',
     }
-    for k in ('elementSafe', 'scriptSafe', 'routeLitSafe', 'routeValSafe', 'resNameSafe', 'querySafe', 'anchorSafe', 'plusSafe', 'alwaysSafe'):
+    for k in SITES:
         L.append('/-- %s -/' % doc[k])
-        L.append('def %s : List UInt8 := %s' % (k, lean_list(out[k])))
+        L.append('def %s : List UInt8 := %s' % (k, lean_list(sets[k])))
         L.append('')
-    L.append('/-- the named constants as written in the source -/')
-    L.append('def constPathSegmentSafe : List UInt8 := %s' % lean_list(out['const_PATH_SEGMENT_SAFE']))
-    L.append('def constPathSafe : List UInt8 := %s' % lean_list(out['const_PATH_SAFE']))
-    L.append('def constQuerySafe : List UInt8 := %s' % lean_list(out['const_QUERY_SAFE']))
-    L.append('def constAnchorSafe : List UInt8 := %s' % lean_list(out['const_ANCHOR_SAFE']))
+    L.append("/-- the interpreter's urllib.parse._ALWAYS_SAFE -/")
+    L.append('def alwaysSafe : List UInt8 := %s' % lean_list(always))
+    L.append('')
+    L.append('/-- the named module constants (attribute values minus the always-safe characters; the probed set of the main site when one is missing) -/')
+    for lean_name in ('constPathSegmentSafe', 'constPathSafe', 'constQuerySafe', 'constAnchorSafe'):
+        L.append('def %s : List UInt8 := %s' % (lean_name, lean_list(consts[lean_name])))
     L.append('')
     L.append('end Pyr.Url.Gen')
     return {'PyramidModel/Gen/C17.lean': '\n'.join(L) + '\n'}
 
 
 if __name__ == '__main__':
-    import sys
     for k, v in generate(sys.argv[1] if len(sys.argv) > 1 else '/repo/src').items():
         print(v)
     print(summary)
